@@ -33,6 +33,9 @@ Cases ==
     \* one item replaced by a well-formed value of another type (integers at the limits, empty / nested containers,
     \* booleans, null, undefined, floats, tags, indefinite-length items; JSON: null, numbers at the limits, nesting)
     [dec : CborDecoders \cup JsonDecoders \cup {"authdata"}, mut : {"retype"}, arg : {"none"}] \cup
+    \* text inputs with characters whose case mapping changes their length, that IDNA maps to a dot or to nothing,
+    \* combining marks, bidi controls, NUL
+    [dec : {"psl", "rpid", "fingerprint", "bytesStr", "clientData", "jsonCreate", "jsonGet"}, mut : {"unicode"}, arg : {"none"}] \cup
     \* a string member resized consistently (well-formed CBOR, unexpected member length: key coordinates, hashes, ids)
     [dec : CborDecoders \cup {"authdata"}, mut : {"resize"}, arg : {"zero", "minus1", "plus1", "double"}] \cup
     [dec : CborDecoders, mut : {"bigseq"}, arg : BigSeq] \cup
